@@ -50,7 +50,7 @@ theorem rxAckInv_of_view {e e' : Ep} (h : e'.rxAckView = e.rxAckView) (hi : RxAc
 theorem rxAckInv_sendMessage (e : Ep) (m : Msg) (hi : RxAckInv e) : RxAckInv (sendMessage e m) := by
   intro p hp
   have := hi p hp
-  simp only [sendMessage, kaReset, idleReset]
+  simp only [sendMessage, sendReady, kaReset, idleReset]
   exact this.mono [m]
 
 theorem rxAckInv_sendContact (e : Ep) (hi : RxAckInv e) : RxAckInv (sendContact e) :=
@@ -110,7 +110,7 @@ theorem rxAckInv_writeConn (e : Ep) (n : Nat) (up : Bool) (hi : RxAckInv e) : Rx
     · exact hi
   · simp only []
     split
-    · exact rxAckInv_of_view (rv_doClose e) hi
+    · exact hi
     · split
       · exact rxAckInv_of_view (by rw [rv_checkSessTerm]; rfl) hi
       · exact rxAckInv_of_view rfl hi
@@ -163,7 +163,7 @@ theorem rxAckInv_segAccept (e : Ep) (flags tid : Nat) (cur data : Bytes) (o1 : L
     refine rxAckInv_of_view (e := { sendMessage e (.xferAck flags tid (cur ++ data).length) with
         rxLog := e.rxLog ++ [(tid, cur ++ data)] }) (by rw [rv_checkSessTerm]; rfl) ?_
     intro p hp
-    simp only [sendMessage, kaReset, idleReset, List.mem_append, List.mem_singleton] at hp ⊢
+    simp only [sendMessage, sendReady, kaReset, idleReset, List.mem_append, List.mem_singleton] at hp ⊢
     rcases hp with hp | hp
     · exact (hi p hp).mono _
     · subst hp
@@ -287,7 +287,9 @@ theorem rxAckInv_step (e : Ep) (ev : Ev) (hi : RxAckInv e) : RxAckInv (step e ev
     simp only []
     split
     · exact hi
-    · exact rxAckInv_pump _ _ hi
+    · split
+      · exact hi
+      · exact rxAckInv_of_view rfl (rxAckInv_pump _ _ (rxAckInv_of_view (e := e) rfl hi))
   | rx c =>
     simp only []
     split
